@@ -25,10 +25,10 @@ func TestVerifC05(t *testing.T) {
 	vfMain(t, vfCheck{
 		ID: "C05", Level: "exploration",
 		Rule:        "seeded operation sequences (length 5..60) over the names {a,b,c,d,d/x,d/y,d/e,d/e/z,l,m,nope} with all 21 listed operations (OpenFile with every access/creation flag combination), so that collisions, missing parents, non-empty directories, dangling and directory symlinks and files-where-directories-are-expected occur; absolute paths and working-directory-relative paths (WithServerWorkingDirectory); privileged and unprivileged callers (the latter with restrictive chmods 000/100/200/300/500/555 on files and directories). Documented differences are encoded: Mkdir has no mode (0755), Create is 0666 before umask 022, RemoveAll errors on a missing path, RealPath is lexical, StatVFS compares the stable fields; the empty path and ill-formed glob patterns are excluded. A class is (operation, outcome category on the os side, path style).",
-		Assumptions: []string{"umask 022; half of the units run every call of both sides as root, the other half as uid/gid 65534 (effective ids of all threads switched with AllThreadsSyscall; snapshots and clean-up as root), so that permission outcomes occur", "unprivileged units never give a directory read permission without search permission: package os can still list the names of such a directory (Glob, Walk) while an SFTP listing carries attributes and fails as a whole — a property of the protocol, not an outcome the statement compares", "go1.25.0's os.RemoveAll leaks an internal errSymlink when a symbolic link cannot be unlinked; it is classified as the permission failure it stands for", "unordered results (ReadDir, Glob, Walk) are compared as multisets; atime and un-set mtimes are not compared"},
+		Assumptions: []string{"umask 022; half of the units run every call of both sides as root, the other half as uid/gid 65534 (effective ids of all threads switched with AllThreadsSyscall; snapshots and clean-up as root), so that permission outcomes occur", "unprivileged units never give a directory read permission without search permission: package os can still list the names of such a directory (Glob, Walk) while an SFTP listing carries attributes and fails as a whole — a property of the protocol, not an outcome the statement compares", "when os.RemoveAll fails only because its openat-based implementation cannot open the PARENT directory for reading, the reference is the algorithm of the portable implementation in the same package (os/removeall_noat.go) on package os primitives", "go1.25.0's os.RemoveAll leaks an internal errSymlink when a symbolic link cannot be unlinked; it is classified as the permission failure it stands for", "unordered results (ReadDir, Glob, Walk) are compared as multisets; atime and un-set mtimes are not compared"},
 		Units: func(tier vfTier, seed uint64) int {
 			if tier == vfThorough {
-				return 400
+				return 8000
 			}
 			return 24
 		},
@@ -229,7 +229,17 @@ func c05Ref(s c05Side, st c05Step) (string, error) {
 		if _, err := os.Lstat(p1); err != nil {
 			return "", err // documented: an error is returned if the path does not exist
 		}
-		return "", os.RemoveAll(p1)
+		err := os.RemoveAll(p1)
+		if pe, ok := err.(*os.PathError); ok && pe.Op == "open" && pe.Path == filepath.Dir(p1) {
+			// The openat-based implementation of os.RemoveAll first opens the PARENT directory for
+			// reading and gives up if it cannot (nothing has been touched at that point). That is an
+			// artefact of one implementation, not what package os documents ("removes path and any
+			// children it contains ... removes everything it can but returns the first error"): the
+			// portable implementation in the same package (removeall_noat.go) needs no read access
+			// to the parent. Its algorithm, on package os primitives, is the reference here.
+			return "", c05RemoveAllNoAt(p1)
+		}
+		return "", err
 	case "Rename", "PosixRename":
 		return "", os.Rename(p1, p2)
 	case "Link":
@@ -316,6 +326,50 @@ func c05Ref(s c05Side, st c05Step) (string, error) {
 		return fmt.Sprintf("bsize=%d frsize=%d blocks=%d files=%d namemax=%d", st_.Bsize, st_.Frsize, st_.Blocks, st_.Files, st_.Namelen), nil
 	}
 	return "", fmt.Errorf("unknown op %s", st.op)
+}
+
+// c05RemoveAllNoAt follows os/removeall_noat.go (directories here are far below its batch size).
+func c05RemoveAllNoAt(path string) error {
+	err := os.Remove(path)
+	if err == nil || os.IsNotExist(err) {
+		return nil
+	}
+	dir, serr := os.Lstat(path)
+	if serr != nil {
+		if pe, ok := serr.(*os.PathError); ok && (os.IsNotExist(pe.Err) || pe.Err == syscall.ENOTDIR) {
+			return nil
+		}
+		return serr
+	}
+	if !dir.IsDir() {
+		return err
+	}
+	fd, oerr := os.Open(path)
+	if oerr != nil {
+		if os.IsNotExist(oerr) {
+			return nil
+		}
+		return oerr
+	}
+	names, readErr := fd.Readdirnames(-1)
+	fd.Close()
+	var first error
+	for _, name := range names {
+		if e := c05RemoveAllNoAt(path + "/" + name); e != nil && first == nil {
+			first = e
+		}
+	}
+	if first == nil {
+		first = readErr
+	}
+	err1 := os.Remove(path)
+	if err1 == nil || os.IsNotExist(err1) {
+		return nil
+	}
+	if first == nil {
+		first = err1
+	}
+	return first
 }
 
 // c05Sut executes the step through the Client on tree A.
